@@ -633,6 +633,15 @@ class Gen:
             self.val_u(f, ind + 1, depth - 1, suffix="")
             f.emit(")" + suffix, ind)
             self.stats["shape_binary_multiline"] += 1
+        elif k < 0.885 and self.p.subs_ref:
+            # a call that MIXES a by-reference argument with an expression argument: the literal the user wrote as the second argument
+            # must stay attributed to its own line, not to the callee's definition
+            name = r.choice(self.p.subs_ref)
+            f.emit(f"{name}(", ind)
+            f.emit(f"{r.choice(self.p.vars)},", ind + 1)
+            self.val_u(f, ind + 1, 0 if r.random() < 0.6 else depth - 1, suffix=",")
+            f.emit(")" + suffix, ind)
+            self.stats["shape_sub_call_byref_mixed"] += 1
         elif k < 0.93 and self.p.subs_u:
             name = r.choice(self.p.subs_u)
             f.emit(f"{name}(", ind)
@@ -749,6 +758,17 @@ class Gen:
         f.emit(f"x + {src},", 2)
         f.emit(")", 1)
 
+    def subroutine_ref(self, f: SrcFile, name: str):
+        """a subroutine taking a scratch variable by reference and a uint64 expression"""
+        f.emit("")
+        f.emit("@pt.Subroutine(pt.TealType.uint64)")
+        f.emit(f"def {name}(v: pt.ScratchVar, x):")
+        f.emit("return pt.Seq(", 1)
+        f.emit("v.store(v.load() + x),", 2)
+        src, _ = self.marker(f, len(f.lines) + 1, "int")
+        f.emit(f"x + {src},", 2)
+        f.emit(")", 1)
+
     def repeatable(self):
         """markers that may be written a second time: not those inside plain Python helper functions -- a helper called from several
         places yields several TEAL lines attributed to ITS line, so 'as many loads as writing places' would no longer mean one load each"""
@@ -777,6 +797,7 @@ class Project:
         self.markers: dict[int, tuple[str, int, str]] = {}
         self.repeats: dict[int, list[tuple[str, int]]] = {}     # further writing positions of a marker
         self.subs_u: list[str] = []
+        self.subs_ref: list[str] = []       # subroutines (v: ScratchVar, x) of c15_main.py
         self.helpers: list = []
         self.twins: list = []
         self.vars = ["c15_v0", "c15_v1"]
@@ -843,6 +864,9 @@ class Project:
             main.emit(f"import {mf.mod}")
         for v in self.vars:
             main.emit(f"{v} = pt.ScratchVar(pt.TealType.uint64)")
+        if r.random() < 0.6:
+            g.subroutine_ref(main, "rsub_0")
+            self.subs_ref.append("rsub_0")
         for k in range(r.randrange(0, 3)):
             g.subroutine(main, f"msub_{k}", r.randrange(1, 5), 2, recursive=r.random() < 0.3)
             self.subs_u.append(f"msub_{k}")
